@@ -52,9 +52,13 @@ class ExprMixin:
             return FIELD_TYPES.get((cls, name), ())
         if k == 'new':
             return (v.a[0],)
-        if k == 'elem':
+        if k in ('elem', 'item'):
             t = self.type_of(v.a[0], st)
             return tuple(x[4:] for x in t if x.startswith('seq:'))
+        if k == 'iterof':
+            return self.type_of(v.a[0], st)
+        if k == 'term' and v.a[0] == 'reversed' and v.a[1]:
+            return self.type_of(v.a[1][0], st)
         if k in ('param', 'free'):
             mod = v.a[1] if len(v.a) > 1 else None
             return PARAM_TYPES.get((mod, v.a[0]), ())
